@@ -319,6 +319,7 @@ def run(tier, seed, build, res):
     process(cases, modes_of, res, 'docs')
     own_checks_stream(rng, res, 6 if tier == 'quick' else 80)
     server_language_stream(res)
+    server_crlf_stream(res)
 
 
 def own_checks_stream(rng, res, n):
@@ -403,6 +404,40 @@ def server_language_stream(res):
                                  [(x['argv'][x['argv'].index('--language') + 1]
                                    if '--language' in x['argv'] else None, x['text'][:30])
                                   for x in r.calls])))
+
+
+def server_crlf_stream(res):
+    """server emulation: the client counts offsets in the text it sent --
+    also when that text has CRLF line ends or no final line break"""
+    for tex in ('Erste Zeile hier.\r\nZweite Zeile mit Fehlerr.\r\nDritte Zeile mit Worrt am Ende.\r\n',
+                'Erste Zeile hier.\nZweite Zeile mit Fehlerr.\nDritte mit Worrt',
+                'Erste\r\n\r\nZweite \\textbf{Fehlerr} und\r\nWorrt.'):
+        tex2, parts = shellcase.shell_parts(tex, 'de-DE', False, 2)
+        plain = parts[0][1]
+        ms = []
+        want = []
+        for w in ('Fehlerr', 'Worrt'):
+            o = plain.find(w)
+            if o >= 0:
+                ms.append(shellcase.lt_match(plain, o, len(w), rule='R' + w))
+                want.append((tex.find(w), len(w)))
+        c = {'tex': tex, 'tex2': tex2, 'parts': parts, 'multi': False, 'language': 'de-DE',
+             'mlc': 2, 'answers': [json.dumps({'matches': ms}).encode('utf-8')]}
+        key = 'c14-crlf:%r' % tex
+        case = {'tex': tex, 'server': True}
+        res.count('server-crlf', tex, nontrivial=True)
+        srv = Server(c)
+        try:
+            r = srv.post(tex, 'de-DE')
+            got = [(m['offset'], m['length']) for m in json.loads(r.out)['matches']]
+        except Exception as e:
+            res.failures.append((key, case, 'server: %r' % e))
+            continue
+        finally:
+            srv.close()
+        if got != want:
+            res.failures.append((key, case, 'the server answers %r for the words at %r of the '
+                                 'text it was sent' % (got, want)))
 
 
 def case_from_json(x):
